@@ -55,6 +55,7 @@ use crate::{Header, Record};
 #[derive(Debug)]
 pub struct Writer<W> {
     inner: W,
+    buf: Vec<u8>,
 }
 
 impl<W> Writer<W>
@@ -70,7 +71,10 @@ where
     /// let writer = vcf::io::Writer::new(Vec::new());
     /// ```
     pub fn new(inner: W) -> Self {
-        Self { inner }
+        Self {
+            inner,
+            buf: Vec::new(),
+        }
     }
 
     /// Returns a reference to the underlying writer.
@@ -148,8 +152,21 @@ where
     /// # Ok::<_, std::io::Error>(())
     /// ```
     pub fn write_record(&mut self, header: &Header, record: &Record) -> io::Result<()> {
-        write_record(&mut self.inner, header, record)
-            .map_err(|e| io::Error::new(io::ErrorKind::InvalidInput, e))
+        self.write_buffered_record(header, record)
+    }
+
+    // A record is serialized to a buffer first so that a record that fails to serialize does not
+    // leave a partial line in the output.
+    fn write_buffered_record<R>(&mut self, header: &Header, record: &R) -> io::Result<()>
+    where
+        R: crate::variant::Record + ?Sized,
+    {
+        self.buf.clear();
+
+        write_record(&mut self.buf, header, record)
+            .map_err(|e| io::Error::new(io::ErrorKind::InvalidInput, e))?;
+
+        self.inner.write_all(&self.buf)
     }
 }
 
@@ -166,8 +183,7 @@ where
         header: &Header,
         record: &dyn crate::variant::Record,
     ) -> io::Result<()> {
-        write_record(&mut self.inner, header, record)
-            .map_err(|e| io::Error::new(io::ErrorKind::InvalidInput, e))
+        self.write_buffered_record(header, record)
     }
 }
 
